@@ -249,8 +249,9 @@ Proof.
       rewrite last_last in X. exact X. }
     change (fill_gaps ((s, e, v) :: (s2, e2, v2) :: rest))
       with (let '(ss, vs) := fill_gaps ((s2, e2, v2) :: rest) in
-            if s2 =? e then (s :: ss, v :: vs) else (s :: e :: ss, v :: vzero :: vs)).
-    rewrite Efill. destruct (Z.eqb_spec s2 e) as [E|E].
+            if m_bg_is_gap s2 e then (s :: e :: ss, v :: vint m_bg_gap_value :: vs) else (s :: ss, v :: vs)).
+    rewrite Efill. unfold m_bg_is_gap. change (vint m_bg_gap_value) with vzero.
+    destruct (Z.eqb_spec s2 e) as [E|E]; cbn [negb].
     + subst s2. exists (e :: ss2), (v :: vs2). repeat split.
       * simpl. lia.
       * cbn [app increasing_from]. rewrite Einc, andb_true_r. apply Z.ltb_lt. assumption.
@@ -331,10 +332,12 @@ Proof.
   assert (HsL : s < L).
   { pose proof (increasing_last s _ Einc) as [_ X]. specialize (X ltac:(destruct ss'; discriminate)).
     rewrite last_last in X. exact X. }
-  replace (size <? L) with false by (symmetry; apply Z.ltb_ge; lia).
+  unfold m_bg_fits, m_bg_ends_at_size, m_bg_tail_at, m_bg_tail_before, m_bg_tail_values_before, m_bg_needs_prefix,
+    m_bg_prefix_event, m_bg_prefix_value. cbn [map]. change (vint 0) with vzero.
+  replace (L <=? size) with true by (symmetry; apply Z.leb_le; lia). cbn [negb].
   destruct (Z.eqb_spec size L) as [E|E].
   - (* last record ends at size *)
-    cbn [app]. destruct (Z.eqb_spec s 0) as [E0|E0].
+    cbn [app]. destruct (Z.eqb_spec s 0) as [E0|E0]; cbn [negb].
     + subst s. eexists. split; [rewrite mk_rle_wf; [reflexivity|]|repeat split].
       * unfold wf_rle. cbn [fst snd]. rewrite Z.eqb_refl, Einc. cbn [andb].
         apply Z.eqb_eq. unfold len. rewrite app_length. simpl length. lia.
@@ -358,7 +361,7 @@ Proof.
     assert (Hinc2 : increasing_from s (ss' ++ [L; size]) = true).
     { change [L; size] with ([L] ++ [size]). rewrite app_assoc, increasing_from_app, Einc, last_last.
       cbn [increasing_from andb]. rewrite andb_true_r. apply Z.ltb_lt. lia. }
-    cbn [app]. destruct (Z.eqb_spec s 0) as [E0|E0].
+    cbn [app]. destruct (Z.eqb_spec s 0) as [E0|E0]; cbn [negb].
     + subst s. eexists. split; [rewrite mk_rle_wf; [reflexivity|]|repeat split].
       * unfold wf_rle. cbn [fst snd]. rewrite Z.eqb_refl, Hinc2. cbn [andb].
         apply Z.eqb_eq. unfold len. rewrite !app_length. simpl length. lia.
@@ -390,7 +393,8 @@ Proof.
   { unfold wf_rle. cbn [fst snd increasing_from]. rewrite Z.eqb_refl. cbn [andb]. rewrite andb_true_r.
     apply andb_true_intro. split; [apply Z.ltb_lt; lia|reflexivity]. }
   repeat split.
-  - unfold from_bedgraph_gen, mk_rle. rewrite W. reflexivity.
+  - unfold from_bedgraph_gen, mk_rle, m_bg_empty_events, m_bg_empty_values. cbn [map]. change (vint 0) with vzero.
+    rewrite W. reflexivity.
   - exact W.
   - unfold expand. cbn [fst snd]. rewrite expand_from_single. unfold dense_of.
     symmetry. replace (size - 0) with size by lia. apply tabulate_const. intros p Hp. reflexivity.
@@ -938,7 +942,7 @@ Theorem to_dict_concat : forall sizes r,
 Proof.
   intros sizes r W Hp Ht.
   destruct (to_dict_from r sizes [] sizes W eq_refl Hp ltac:(unfold total_size in Ht; lia) ltac:(rewrite sumZ_nil; lia)) as [E1 E2].
-  unfold model_to_dict, chrom_slices, per_chrom, arange.
+  unfold model_to_dict, chrom_slices, per_chrom, arange, m_slice_lo, m_slice_hi.
   replace (Z.to_nat (len sizes)) with (length sizes) by (unfold len; lia).
   change (len (@nil Z)) with 0 in *. split; [|exact E2].
   rewrite E1. rewrite sumZ_nil.
@@ -1084,7 +1088,8 @@ Theorem from_intervals_dense : forall ivs size k value default,
     /\ expand r = dense_of (cast_to k default) (iv_recs value ivs) size.
 Proof.
   intros ivs size k value default Hsize Hok Hend.
-  unfold from_intervals_scalar_gen, clean_pinned, from_intervals_events. set (d := cast_to k default).
+  unfold from_intervals_scalar_gen, clean_pinned, from_intervals_events, iv_has_prefix, iv_has_postfix,
+    m_iv_prefix, m_iv_postfix, m_iv_n_pairs, m_iv_keep. set (d := cast_to k default).
   (* the assertions hold *)
   assert (Hass : all_true (map2 Z.ltb (map fst ivs) (map snd ivs)) = true
                  /\ all_true (map2 Z.leb (removelast (map snd ivs)) (tl (map fst ivs))) = true).
